@@ -314,7 +314,8 @@ def candidate_random(rng, count, it_rng=True):
         mult = rng.choice(["1", "1", "1/2", "2", "0"])
         var = rng.choice([0, 0, 1])
         rlen = R[-1] + 1 + rng.randrange(0, 3000)
-        yield (f"CANDIDATE {pstr(P)} mult={mult} var={var} it={rng.randrange(1, 9) if it_rng else 1} rev={rev} "
+        den = rng.choice([1, 1, 1, 2, 4, 8])     # scores in units of 1/den (dyadic: an empty segment scores float 0.0, the sum stays exact)
+        yield (f"CANDIDATE {pstr(P)} mult={mult} var={var} den={den} it={rng.randrange(1, 9) if it_rng else 1} rev={rev} "
                f"peaks={','.join(map(str, peaks))} REF={mapstr(1, rlen, 0, R)} QRY={mapstr(7, Q[-1] + 1, 0, Q)}")
     yield f"CANDIDATE {pstr(DEFAULT_P)} mult=1 var=0 it=1 rev=0 peaks= REF={mapstr(1, 100, 0, [10, 50])} QRY={mapstr(7, 41, 0, [0, 40])}"
     P = dict(DEFAULT_P, su=10)
